@@ -99,7 +99,7 @@ def install_api_time_limits(seconds):
     import functools
     import signal
     from code_data import CodeData
-    state = {"depth": 0}
+    state = {"depth": 0, "hangs": 0}
 
     def limited(fn, label):
         @functools.wraps(fn)
@@ -108,7 +108,10 @@ def install_api_time_limits(seconds):
                 return fn(*a, **kw)
 
             def on_alarm(signum, frame):
+                state["hangs"] += 1
                 raise TimeoutError("%s did not return within %d s" % (label, seconds))
+            if state["hangs"] >= 3:     # keep the check bounded: this process has already shown three calls that do not return
+                raise TimeoutError("%s not attempted: three earlier API calls in this process did not return within %d s" % (label, seconds))
             state["depth"] += 1
             old = signal.signal(signal.SIGALRM, on_alarm)
             signal.alarm(seconds)
